@@ -143,6 +143,7 @@ func (c *Conn) Write(b []byte) (int, error) {
 		return 0, opErr("write", syscall.EPIPE)
 	}
 	vsched.EnvProgress()
+	vsched.ReadBytes(b, "net.Conn.Write reads its buffer")
 	seg := append([]byte(nil), b...)
 	if p.Coalesce && len(p.inbox) > 0 {
 		p.inbox[len(p.inbox)-1] = append(p.inbox[len(p.inbox)-1], seg...)
